@@ -329,7 +329,7 @@ func TestVerif_C14_MixedDigits(t *testing.T) {
 // and fresh objects with equal coordinates are mixed in — results must only depend on the point's current value.
 func TestVerif_C14_PointObjectHistory(t *testing.T) {
 	rec := stats.Get("C14", "object-history")
-	rec.Rule("rapid history of 3..8 steps on one persistent *SM2Point A (and one persistent scalar buffer); objects are built through a drawn exported constructor (NewSM2Point+SetBytes, NewFromXY on raw coordinates, NewSM2Generator+Set): each step changes A in place (SetBytes of another point, Set from an object of any origin, replace A by a newly constructed object, A.Add(A,G), A.Double(A), A.Negate(A), or leaves it) and then calls ScalarMixedMult_Unsafe(g,A,s), ScalarMult(A,k) or the same on a FRESH object with A's coordinates; oracle sm2ref on A's current value. Non-trivial: a history in which A was mutated between two multiplications (every history); distinct by history.")
+	rec.Rule("rapid history of 3..8 steps on one persistent *SM2Point A (and one persistent scalar buffer); objects are built through a drawn exported constructor (NewSM2Point+SetBytes, NewFromXY on raw coordinates, NewSM2Generator+Set): each step changes A in place (SetBytes of another point, Set from an object of any origin, replace A by a newly constructed object, A.Add(A,G), A.Double(A), A.Negate(A), or leaves it), sometimes makes a MISUSED call first (nil / zero-value point, scalars of the wrong length; recovered, not judged) and then calls ScalarMixedMult_Unsafe(g,A,s), ScalarMult(A,k) or the same on a FRESH object with A's coordinates; oracle sm2ref on A's current value. Non-trivial: a history in which A was mutated between two multiplications (every history); distinct by history.")
 	t.Cleanup(stats.FlushAll)
 	rapid.Check(t, func(t *rapid.T) {
 		r := gen.Rand(t, "seed")
@@ -368,6 +368,33 @@ func TestVerif_C14_PointObjectHistory(t *testing.T) {
 			if cur.Inf {
 				cur = sm2ref.G
 				A.Set(NewSM2Generator())
+			}
+			// now and then a MISUSED call first (nil or zero-value point, scalars of the wrong length): whatever it does — error or
+			// panic, recovered like a server recovers a handler — is not judged, but the valid call after it must not be affected
+			if gen.Uniform(t, "misuse", 0, 3) == 0 {
+				func() {
+					defer func() { recover() }()
+					bad := gen.RandBytes(r, 32)
+					switch gen.Pick(t, "misuse-kind", "nil-point", "zero-value-point", "short-g", "empty-g", "short-s", "long-s", "base-short", "mult-nil") {
+					case "nil-point":
+						ScalarMixedMult_Unsafe(bad, nil, bad)
+					case "zero-value-point":
+						ScalarMixedMult_Unsafe(bad, &SM2Point{}, bad)
+					case "short-g":
+						ScalarMixedMult_Unsafe(bad[:31], A, bad)
+					case "empty-g":
+						ScalarMixedMult_Unsafe(nil, A, bad)
+					case "short-s":
+						ScalarMixedMult_Unsafe(bad, A, bad[:gen.Uniform(t, "slen", 0, 31)])
+					case "long-s":
+						ScalarMixedMult_Unsafe(bad, A, append(bad, 1, 2, 3))
+					case "base-short":
+						ScalarBaseMult(bad[:gen.Uniform(t, "blen", 0, 31)])
+					case "mult-nil":
+						ScalarMult(nil, bad)
+					}
+				}()
+				hist = append(hist, 'x')
 			}
 			copy(scal, gen.RandBytes(r, 32)) // the same backing array is reused for every scalar
 			g := gen.RandBytes(r, 32)
